@@ -23,8 +23,9 @@ FILES = {
     "C18": [("C18", ["Scc.Fun.Parse"]), ("C18Cur", ["Scc.Generated.Parser"])],
     "C19": [("C19", ["Scc.Fun2Core.Size"]), ("C19Shrink", [])],
     # C12 = the chain of preservation/no-panic theorems of the individual passes
-    "C12": [("C15", ["Scc.Fun.Check"]), ("C02", ["Scc.Fun2Core.Model"]), ("C03", ["Scc.Core.Focus"]), ("C04", ["Scc.Core2AxCut.Model"]), ("C05", ["Scc.AxCut.Linearize"])],
-    "C01": [("C01", [])],
+    "C12": [("C12", ["Scc.Pipeline"]), ("C15", ["Scc.Fun.Check"]), ("C02", ["Scc.Fun2Core.Model"]), ("C03", ["Scc.Core.Focus"]), ("C04", ["Scc.Core2AxCut.Model"]), ("C05", ["Scc.AxCut.Linearize"])],
+    # C01 = composition theorem over the whole pipeline model + its links
+    "C01": [("C01", ["Scc.Pipeline"]), ("C12", []), ("C20Full", [])],
 }
 
 def theorems(path):
